@@ -166,7 +166,7 @@ impl Check for C01 {
         "C01"
     }
     fn plan(&self, tier: Tier) -> Plan {
-        let mut p = Plan::new(tier.pick(40_000, 1_500_000), tier.pick(30.0, 480.0));
+        let mut p = Plan::new(tier.pick(200_000, 20_000_000), tier.pick(30.0, 420.0));
         p.mandatory = 1;
         p.cpu_budget_s = 120.0;
         p
